@@ -59,6 +59,8 @@ def _const_truth(t_):
 def _lit(c, tr):
     while isinstance(c, tuple) and c and c[0] == 'not':
         c, tr = c[1], not tr
+    if isinstance(c, tuple) and c and c[0] == 'cmp' and c[1] in ('isnot', '!='):
+        c, tr = ('cmp', {'isnot': 'is', '!=': '=='}[c[1]]) + c[2:], not tr
     return ('T' if tr else 'F', c)
 
 
@@ -86,6 +88,8 @@ def summary(fnode, name_map=None, call_alias=None, unroll=(0, 1, 2), ignore_call
                 truth = e[2]
                 while isinstance(tt, tuple) and tt and tt[0] == 'not':     # `if not c:` taken  ==  `if c:` not taken
                     tt, truth = tt[1], not truth
+                if isinstance(tt, tuple) and tt and tt[0] == 'cmp' and tt[1] in ('isnot', '!='):    # a is not b  ==  not (a is b)
+                    tt, truth = ('cmp', {'isnot': 'is', '!=': '=='}[tt[1]]) + tt[2:], not truth
                 # a test on a known constant (flag variables: doshrink = 0 / 1 / False / True) is decided: the other branch is
                 # infeasible, and the literal carries no information
                 cv = _const_truth(tt)
